@@ -10,6 +10,11 @@ package main
 //	par <conn>:<tok>+<tok>… …  one burst per connection, all written at the same moment
 //	census                     broker goroutines by kind, and those parked in a wait nothing will ever end
 //	lclose <conn>              the scripted peer closes its socket (allowed on a connection the broker has closed)
+//	release                    handlers held in the OnSubscribe hook (SUBSCRIBE to lc/hold) go on
+//	lcev                       `ev=<hook events in order> subs=<subscriptions in the store>`; events: enter:<cid> exit:<cid>
+//	                           (the held handler), closed:<cid> (OnClosed), onstop
+//	lstop release=1            Stop is called while a handler is held; once the broker is quiescent again the line notes
+//	                           whether Stop has already returned (`early=1`), then releases the handler
 //	lstop [burst=<conn>:<tok>+…]   Stop (3 s context); then census and plugin counters BEFORE the scripted peers are closed
 //
 // packet tokens:  C:<cid>:<v>  CONNECT (cid ~ = empty)      CA:<cid>  v5 CONNECT with an Authentication Method
@@ -39,6 +44,39 @@ import (
 
 type lcPlugin struct {
 	load, unload, onStop int32
+
+	mu     sync.Mutex
+	gate   chan struct{} // a SUBSCRIBE to lc/hold keeps its handler inside the OnSubscribe hook until `release`
+	events []string      // enter:<cid> exit:<cid> (the held handler), closed:<cid> (OnClosed), onstop
+}
+
+func (p *lcPlugin) log(e string) {
+	p.mu.Lock()
+	p.events = append(p.events, e)
+	p.mu.Unlock()
+}
+
+func (p *lcPlugin) curGate() chan struct{} {
+	p.mu.Lock()
+	defer p.mu.Unlock()
+	return p.gate
+}
+
+// release lets every handler that is waiting in the hook go on; later ones wait for the next release
+func (p *lcPlugin) release() {
+	p.mu.Lock()
+	close(p.gate)
+	p.gate = make(chan struct{})
+	p.mu.Unlock()
+}
+
+func (p *lcPlugin) evString() string {
+	p.mu.Lock()
+	defer p.mu.Unlock()
+	if len(p.events) == 0 {
+		return "-"
+	}
+	return strings.Join(p.events, ",")
 }
 
 var lcCur *lcPlugin
@@ -51,7 +89,28 @@ func (p *lcPlugin) HookWrapper() server.HookWrapper {
 		OnStopWrapper: func(pre server.OnStop) server.OnStop {
 			return func(ctx context.Context) {
 				atomic.AddInt32(&p.onStop, 1)
+				p.log("onstop")
 				pre(ctx)
+			}
+		},
+		OnSubscribeWrapper: func(pre server.OnSubscribe) server.OnSubscribe {
+			return func(ctx context.Context, client server.Client, req *server.SubscribeRequest) error {
+				for _, t := range req.Subscribe.Topics {
+					if t.Name == "lc/hold" {
+						cid := client.ClientOptions().ClientID
+						p.log("enter:" + cid)
+						<-p.curGate()
+						p.log("exit:" + cid)
+						break
+					}
+				}
+				return pre(ctx, client, req)
+			}
+		},
+		OnClosedWrapper: func(pre server.OnClosed) server.OnClosed {
+			return func(ctx context.Context, client server.Client, err error) {
+				p.log("closed:" + client.ClientOptions().ClientID)
+				pre(ctx, client, err)
 			}
 		},
 		OnEnhancedAuthWrapper: func(pre server.OnEnhancedAuth) server.OnEnhancedAuth {
@@ -77,7 +136,7 @@ func init() {
 		if m["lc"] != "1" {
 			return nil
 		}
-		lcCur = &lcPlugin{}
+		lcCur = &lcPlugin{gate: make(chan struct{})}
 		return []server.Options{server.WithPlugin(lcCur)}
 	})
 	extraOps["rawconn"] = lcRawconn
@@ -85,6 +144,20 @@ func init() {
 	extraOps["par"] = lcPar
 	extraOps["census"] = func(d *brokerDrv, pos []string, m map[string]string) string { lcHurry(d); return lcCensus() }
 	extraOps["lstop"] = lcStop
+	extraOps["release"] = func(d *brokerDrv, pos []string, m map[string]string) string {
+		if lcCur == nil {
+			return "bad-op"
+		}
+		lcHurry(d)
+		lcCur.release()
+		return d.collect("")
+	}
+	extraOps["lcev"] = func(d *brokerDrv, pos []string, m map[string]string) string {
+		if lcCur == nil {
+			return "bad-op"
+		}
+		return fmt.Sprintf("ev=%s subs=%d", lcCur.evString(), d.b.Srv.StatsManager().GetGlobalStats().SubscriptionStats.SubscriptionsCurrent)
+	}
 	extraOps["lclose"] = func(d *brokerDrv, pos []string, m map[string]string) string {
 		// like `close`, but also allowed on a connection the broker has already closed
 		if len(pos) < 1 || d.b.Conns[pos[0]] == nil {
@@ -367,6 +440,22 @@ func lcStop(d *brokerDrv, pos []string, m map[string]string) string {
 	}
 	go func() { <-start; done <- d.b.Srv.Stop(ctx) }()
 	close(start)
+	early := ""
+	if geti(m, "release", 0) == 1 && lcCur != nil {
+		// Stop has to wait for the connection whose handler is still inside the hook
+		wire.Quiesce(d.qTimeout)
+		select {
+		case err := <-done:
+			done <- err
+			early = " early=1"
+		default:
+			early = " early=0"
+		}
+		var sv, rd, wr, hd, pl int
+		fmt.Sscanf(lcCensus(), "serve=%d read=%d write=%d handle=%d poll=%d", &sv, &rd, &wr, &hd, &pl)
+		early += fmt.Sprintf(" held=%d", hd)
+		lcCur.release()
+	}
 	res := "stopped"
 	select {
 	case err := <-done:
@@ -393,5 +482,9 @@ func lcStop(d *brokerDrv, pos []string, m map[string]string) string {
 	}
 	wire.Quiesce(d.qTimeout)
 	d.b = nil
-	return res + " " + counters + " " + census + " " + got
+	evs := ""
+	if lcCur != nil && geti(m, "release", 0) == 1 {
+		evs = " ev=" + lcCur.evString()
+	}
+	return res + early + " " + counters + evs + " " + census + " " + got
 }
